@@ -68,6 +68,9 @@ def Env.FaultFree (e : Env) : Prop := (∀ r ∈ e.sched, r.benign = true) ∧ (
 /-- every logged request stays inside `codeBufDecode` and asks for at least one byte -/
 def Env.Safe (e : Env) : Prop := ∀ r ∈ e.log, 0 < r.n ∧ (r.off : Int) + r.n ≤ BUF
 
+/-- the transport has nothing to give right now: its next answer is EAGAIN, or nothing is pending -/
+def Env.Stuck (e : Env) : Prop := (e.next).1 = .eagain ∨ e.pending = []
+
 structure RunOut where
   outs : List Res
   c : Ctx
